@@ -66,6 +66,10 @@ func answerFor(owner string, qtype, qclass uint16) []dns.RR {
 	if kind == "p" || kind == "d" || kind == "f" || kind == "x" || kind == "" {
 		return nil // panic / never-answered / failing / denied names and foreign names have no answer
 	}
+	if hops := aliasHops(owner); kind == "c" && hops > 0 && qtype != dns.TypeCNAME {
+		// an alias: its own CNAME, then whatever the target's question has
+		return append([]dns.RR{aliasRecord(owner)}, answerFor(aliasTarget(owner), qtype, qclass)...)
+	}
 	h := qhash(owner, qtype, qclass)
 	if kind == "t" && qtype == dns.TypeTXT {
 		return []dns.RR{sizedTXT(owner, sizedN(owner), h)}
@@ -119,7 +123,49 @@ func kindOfName(name string) string {
 	if len(k) == 2 && k[0] == 'x' {
 		return "x"
 	}
+	if len(k) > 1 && (k[0] == 'c' || k[0] == 'b') && allDigits(k[1:]) {
+		return k[:1] // "c<hops>": alias chain member; "b<wave>": held behind a wave barrier
+	}
 	return k
+}
+
+// kindNumber is the number in the kind label of "<nonce>.<client>.c<N>.c10.test."
+// (alias: hops left to the terminal name) or "….b<N>.…" (barrier: wave index);
+// -1 when the name has no such label.
+func kindNumber(name string) int {
+	l := dns.SplitDomainName(strings.ToLower(name))
+	if len(l) != 5 || len(l[2]) < 2 || !allDigits(l[2][1:]) {
+		return -1
+	}
+	n := 0
+	for _, c := range l[2][1:] {
+		if n = n*10 + int(c-'0'); n > 1<<20 {
+			return -1
+		}
+	}
+	return n
+}
+
+// aliasHops: how many CNAMEs lie between an alias name and its terminal name
+// ("c0" is the terminal name itself, answered like any ordinary name).
+func aliasHops(name string) int {
+	if kindOfName(name) != "c" {
+		return 0
+	}
+	return kindNumber(name)
+}
+
+// aliasTarget is where the alias "<nonce>.<client>.c<h>.c10.test." points:
+// "<nonce>.<client>.c<h-1>.c10.test.", all lower case — a function of the
+// case-folded question, whoever asked it first and however they spelled it.
+func aliasTarget(name string) string {
+	l := dns.SplitDomainName(strings.ToLower(name))
+	return fmt.Sprintf("%s.%s.c%d.%s", l[0], l[1], aliasHops(name)-1, zoneSuffix)
+}
+
+// aliasRecord is the CNAME an alias name owns (owner spelled as given).
+func aliasRecord(owner string) dns.RR {
+	return &dns.CNAME{Hdr: dns.RR_Header{Name: owner, Rrtype: dns.TypeCNAME, Class: dns.ClassINET, Ttl: 300}, Target: aliasTarget(owner)}
 }
 
 func allDigits(s string) bool {
@@ -282,6 +328,9 @@ func rdataEqual(a, b dns.RR) bool {
 	case *dns.AAAA:
 		y, ok := b.(*dns.AAAA)
 		return ok && x.AAAA.Equal(y.AAAA)
+	case *dns.CNAME:
+		y, ok := b.(*dns.CNAME)
+		return ok && strings.EqualFold(x.Target, y.Target)
 	case *dns.TXT:
 		y, ok := b.(*dns.TXT)
 		if !ok || len(x.Txt) != len(y.Txt) {
@@ -506,11 +555,14 @@ const (
 	kFailHit               // re-ask of a failing question (own or shared with other clients): cached-failure rungs
 	kNX                    // "x?": a name below a validated NXDOMAIN cut (RFC 8020 rung once the cut is filed)
 	kEDE                   // "e": f(Q) plus an Extended DNS Error that is a function of the question
+	kAlias                 // "c<h>": a name that is an alias (bare CNAME from upstream, h hops to the terminal name): the cache completes the chain
+	kAliasHit              // re-ask of an alias question (own, or one the round's clients share), mostly in another spelling: composed from cached parts
+	kBarrier               // "b<w>": the stub holds the answer until every exchange of wave w is in flight (DoQ storms)
 	nKinds
 )
 
 var kindNames = [...]string{"normal", "hit", "shared", "slow", "decoded", "large", "panic", "drop", "badclass",
-	"qr1", "short", "garbage", "badcount", "notimp", "oversize", "denied", "sized", "fail", "failhit", "nxcut", "ede"}
+	"qr1", "short", "garbage", "badcount", "notimp", "oversize", "denied", "sized", "fail", "failhit", "nxcut", "ede", "alias", "aliashit", "barrier"}
 
 func (k qkind) String() string { return kindNames[k] }
 
@@ -531,7 +583,7 @@ func (k qkind) headerOnly() bool { return k == kGarbage || k == kBadCount || k =
 // wantsAnswer: a NOERROR, non-truncated reply must carry f(Q).
 func (k qkind) wantsAnswer() bool {
 	switch k {
-	case kNormal, kHit, kShared, kSlow, kDecoded, kLarge, kSized, kEDE:
+	case kNormal, kHit, kShared, kSlow, kDecoded, kLarge, kSized, kEDE, kAlias, kAliasHit, kBarrier:
 		return true
 	}
 	return false
@@ -974,19 +1026,42 @@ func (ep *endpoint) content(raw []byte, h whdr, q *query) {
 	nk := kindOfName(q.Name)
 	ep.header(raw, h, q, m, nk, want)
 	if len(m.Answer) > 0 {
-		bad := len(m.Answer) != len(want)
+		// every record is the one f(question) has at that position: its owner is
+		// the question name or, along an alias chain, the name the chain reached
+		bad := len(m.Answer) > len(want)
 		if !bad {
 			for i, rr := range m.Answer {
-				if !strings.EqualFold(rr.Header().Name, q.Name) || !rdataEqual(rr, want[i]) {
+				if !strings.EqualFold(rr.Header().Name, want[i].Header().Name) || !rdataEqual(rr, want[i]) {
 					bad = true
 					break
 				}
 			}
 		}
-		if bad {
+		partial := false
+		if !bad && len(m.Answer) < len(want) {
+			// a proper prefix is the query's own data only when it is the alias
+			// part of a chain whose completion the server could not obtain
+			if _, isAlias := m.Answer[len(m.Answer)-1].(*dns.CNAME); isAlias && nk == "c" {
+				partial = true
+			} else {
+				bad = true
+			}
+		}
+		if partial {
+			ep.counters["alias_replies_chain_incomplete"]++
+		} else if bad {
 			ep.violate("content/answer-not-f-of-question/"+ep.tr, fmt.Sprintf("answer section of the reply to %s type %d is not the function of the question (got %d records, want %d)", q.Name, q.Qtype, len(m.Answer), len(want)), raw, q, fmt.Sprint(m.Answer))
 		} else {
 			ep.counters["answers_verified_"+ep.tr]++
+			if nk == "c" && len(want) > 1 {
+				ep.counters["alias_chains_verified_"+ep.tr]++
+				if q.Kind == kAliasHit && q.Name != strings.ToLower(q.Name) {
+					// asked in a spelling of the client's own making, answered from
+					// cached parts somebody else's spelling may have filed, and the
+					// question section (judged above) was this client's
+					ep.counters["alias_respelled_hits_verified_"+ep.tr]++
+				}
+			}
 		}
 	} else {
 		switch {
